@@ -13,6 +13,7 @@ Definition enc_body (b : body) : list Z :=
   | BInfo c d q m => [2; zn c; d; q; zn m]
   | BList l => 3 :: Z.of_nat (length l) :: flat_map (fun p => [zn (fst p); zn (snd p)]) (sort_by (fun a b => N.ltb (fst a) (fst b)) l)
   | BOpaque => [4]
+  | BDocs l => 5 :: Z.of_nat (length l) :: flat_map (fun p => [zn (fst p); zn (snd p)]) l
   end.
 
 Definition enc_resp (r : response) : list Z :=
